@@ -178,6 +178,18 @@ impl MemoryManager {
     }
 }
 
+impl Drop for MemoryManager {
+    fn drop(&mut self) {
+        // The manager goes away with the queue, i.e. after every handle: nothing can reference the
+        // retired objects still waiting for an epoch round, so release them now.
+        if let Ok(mut waiting) = self.wait_to_free.lock() {
+            for val in waiting.drain(..) {
+                val.delete();
+            }
+        }
+    }
+}
+
 impl Drop for MemoryManagerInner {
     fn drop(&mut self) {
         for val in self.tofree.drain(..) {
